@@ -1498,6 +1498,9 @@ impl Zeroconf {
                     // with their reply and event channels neither answered nor closed.
                     while receiver.try_recv().is_ok() {}
 
+                    #[cfg(feature = "verif-hooks")]
+                    crate::verif::exit_window();
+
                     return Some(command);
                 }
                 self.exec_command(command, false);
